@@ -15,12 +15,12 @@ pub assume_specification<'a>[ str::trim ](s: &'a str) -> (r: &'a str)
 ;
 
 pub assume_specification<'a>[ str::trim_start ](s: &'a str) -> (r: &'a str)
-    ensures r@ == trim_start_spec(s@), str_offset_in(r, s) == trim_lead(s@), trim_lead(s@) + blen(r@) <= blen(s@);
+    ensures r@ == trim_start_spec(s@), str_offset_in(r, s) == trim_start_lead(s@), trim_start_lead(s@) + blen(r@) <= blen(s@);
 pub assume_specification<'a>[ str::trim_end ](s: &'a str) -> (r: &'a str)
     ensures r@ == trim_end_spec(s@), str_offset_in(r, s) == 0, blen(r@) <= blen(s@);
 
 pub assume_specification<'a>[ str::trim_ascii ](s: &'a str) -> (r: &'a str)
-    ensures r@ == trim_ascii_spec(s@), str_offset_in(r, s) == trim_lead(s@), trim_lead(s@) + blen(r@) <= blen(s@);
+    ensures r@ == trim_ascii_spec(s@), str_offset_in(r, s) == trim_ascii_lead(s@), trim_ascii_lead(s@) + blen(r@) <= blen(s@);
 
 #[verifier::external_body]
 pub fn verif_str_len(s: &str) -> (r: usize)
